@@ -166,6 +166,18 @@ extern "C" void proof_pending_relation() {
   VASSERT(C13, !(e && x), "a state is never pending enter and pending exit at once");
   VASSERT(C13, !(e || x) || c, "pending enter or exit implies pending change");
   VASSERT(C13, !c || e || x, "pending change implies pending enter or exit");
+  // view: the BRANCH of the nearest composite region above s that leads to s (orthogonal forks in between are transparent)
+  Parent p = r.stateParents[s]; bool found = false;
+  for (int k = 0; k <= DEPTH + 1 && !found; ++k) {
+    if (is_root(p)) break;
+    if (p.forkId > 0) found = true; else p = oparent(r, -p.forkId - 1);
+  }
+  if (found) {
+    VREACH("state below a composite region");
+    const Prong act = r.compoActive[p.forkId - 1], req = r.compoRequested[p.forkId - 1];
+    VASSERT(C13, e == (p.prong != act && p.prong == req), "isPendingEnter(s) <=> the nearest composite region above s is asked to switch TO the branch that leads to s");
+    VASSERT(C13, !(req != INVALID_PRONG) || x == (p.prong == act && p.prong != req), "isPendingExit(s) <=> that region sits on the branch that leads to s and is asked to switch away (regions with a pending request)");
+  } else VASSERT(C13, !e && !x && !c, "a state with no composite region above it is never pending");
 }
 // ------------------------------------------------------------------------------------------ C02/C01: requestImmediate
 // spec of one request, written from the statement: the destination and all its ancestors become targets.
